@@ -1,1 +1,4 @@
-
+import Props.C12
+import Props.C14
+import Props.C18
+import Props.C20
